@@ -6,6 +6,9 @@ props = [json.loads(l) for l in open(os.path.join(V, "properties.jsonl"))]
 
 # id -> (level, technique, level text, level note, design ref)
 CLAIMED = {
+ "C12": ("exploration", "deterministic simulation: the real FsWatcherBuilder -> handler -> id_of_path -> EventSender chain driven by a stub notify back-end on a simulated watcher thread, with real create/write/rename/delete histories on a scratch directory and synthetic notifications of every kind, 1-2 (nested) roots, relative path components, paths outside the roots and invalid names; events read from a probe (hook H7) and compared with the property's table",
+         "Seeded search over trees, operation histories, notification kinds and path forms; for every delivered notification the events on the probe must be exactly the entries the property's table names (entry under every root that contains it; plus parent for create / rename / delete; nothing for Access / Other / errors / outside / invalid names / before start), the watcher must keep working afterwards, and path_of / id_of_path must round-trip. Sampling, not proof.",
+         "The notify/inotify back-end is a stub that delivers the event kinds notify 6.1.1 produces on Linux; the handler and everything below it are real. Known open finding F-C12d is matched by signature.", "DESIGN.md §7 C12"),
  "C04": ("exploration", "deterministic simulation: one generated tree materialised as a real directory (FileSystem), tar and zip archives (member order permutations, with/without directory members, ./ prefix, gnu/ustar headers with long names, stored/deflated) and the embedded form (the real embed! walker run on the directory); archives behind a faultable in-memory reader (short reads, EINTR, hard errors at open time or later) and file-backed; 1-3 threads querying one source",
          "Seeded search over trees (unicode, spaces, empty extension, same stem with several extensions, file and directory sharing an id, > 100-byte paths), archive options, reader faults and schedules; every source must answer like the tree model: read = exact bytes, read_dir = each direct child exactly once with kind/id/extension, exists consistent with both, absent things not found, root included; under a hard reader error a call may fail but never answers wrongly, an error at open time fails the open. Sampling, not proof.",
          "The schedule dimension is thin (readers share nothing mutable); the decision comes mostly from generated input and the reader-fault seam. The tar/zip crates' own handling of EINTR is outside the library: such calls may fail.", "DESIGN.md §7 C04"),
@@ -58,7 +61,7 @@ CLAIMED = {
          "Seeded search over interleavings of 2-4 threads operating on one AtomicReloadId, with a scheduling point in front of every atomic operation; each history is checked for linearizability against the sequential max model, plus the direct statements (final = max offered, one `true` per distinct growth). Sampling, not proof.",
          "Engine A is sequentially consistent and treats each atomic RMW as indivisible; non-atomic replacements and weak-memory effects are only visible to the Miri engine. ReloadId values are forged through a layout-checked transmute.", "DESIGN.md §7 C18"),
 }
-NOT_YET = "check not built yet in this session; design in DESIGN.md §7 (simulation applies)"
+NOT_YET = "no check registered"
 
 hooks = subprocess.check_output(["git", "-C", "/repo", "log", "--format=%H %s", "--reverse"], text=True).splitlines()
 hook_commits = [l.split()[0] for l in hooks if "verif hook" in l]
